@@ -1123,6 +1123,8 @@ func run(ctx *Ctx) *Result {
 				res.Count("real-script-command-refused-by-strict-device:" + rejectClass(err.Error()))
 				s := sig("command_rejected_by_strict_device")
 				s["reason"] = rejectClass(err.Error())
+				// the model of the unchanged engine, executed on the Lean device, is refused as well (and its script is the real one)
+				s["model_predicts"] = verdict == "ok" && strings.HasPrefix(f["exec"], "rejected")
 				res.Fail(s, fmt.Sprintf("command %d %q: %v", i, cmd, err), c)
 				return
 			}
@@ -1277,6 +1279,7 @@ func run(ctx *Ctx) *Result {
 						}
 						s := sig("resume_command_rejected")
 						s["reason"] = rejectClass(err.Error())
+						s["model_predicts"] = v2 == "ok" && strings.HasPrefix(f2["exec"], "rejected")
 						res.Fail(s, fmt.Sprintf("cut after %d commands: second script command %d %q: %v", k+1, i, cmd, err), c)
 						bad = true
 						break
